@@ -44,6 +44,9 @@ type scriptedClient struct {
 	times     []time.Time
 	cancelP   context.CancelFunc
 	boom      error
+	timeout   time.Duration // configured ping timeout (for the deadline rule)
+	slow      time.Duration // duration of an "S" ping
+	short     string        // first ping whose deadline was much nearer than the configured timeout
 	exhausted chan struct{}
 	once      sync.Once
 }
@@ -68,11 +71,27 @@ func (s *scriptedClient) Ping(ctx context.Context) error {
 	if i < len(s.script) {
 		step = s.script[i]
 	}
+	if dl, ok := ctx.Deadline(); ok && s.timeout > 0 && s.timeout < time.Hour && s.short == "" {
+		// "as long as each response arrives within the timeout": every ping is entitled to the whole timeout
+		if left := time.Until(dl); left < s.timeout/2 {
+			s.short = fmt.Sprintf("ping #%d was given %v to complete, the configured timeout is %v", i+1, left.Round(time.Millisecond), s.timeout)
+		}
+	}
 	s.mu.Unlock()
 	if ctx.Err() != nil {
 		return fmt.Errorf("waiting PINGRESP: %w", ctx.Err())
 	}
 	switch step {
+	case "S":
+		// answered late, but well within the timeout
+		t := time.NewTimer(s.slow)
+		defer t.Stop()
+		select {
+		case <-t.C:
+			return nil
+		case <-ctx.Done():
+			return fmt.Errorf("waiting PINGRESP: %w", ctx.Err())
+		}
 	case "P":
 		t := time.NewTimer(time.Duration(i%3) * 300 * time.Microsecond)
 		defer t.Stop()
@@ -109,6 +128,13 @@ func c13Unit(rng *rand.Rand) (sig, detail, shape string) {
 		script = append(script, "P")
 	}
 	final := []string{"E", "T", "Cd", "Cb", "END"}[rng.Intn(5)]
+	slowScript := rng.Intn(8) == 0
+	if slowScript {
+		// responses that take most of the timeout (several intervals): the next pings are still entitled to the
+		// whole timeout
+		final = "END"
+		script = []string{"P", "S", "S", "P"}[:2+rng.Intn(3)]
+	}
 	if final != "END" {
 		script = append(script, final)
 	}
@@ -117,9 +143,12 @@ func c13Unit(rng *rand.Rand) (sig, detail, shape string) {
 	if final == "T" {
 		timeout = time.Duration(20+rng.Intn(20)) * time.Millisecond
 	}
+	if slowScript {
+		timeout = 400 * time.Millisecond
+	}
 	parent, cancel := context.WithCancel(context.Background())
 	defer cancel()
-	sc := &scriptedClient{script: script, cancelP: cancel, boom: errors.New("scripted ping failure"), exhausted: make(chan struct{})}
+	sc := &scriptedClient{script: script, cancelP: cancel, boom: errors.New("scripted ping failure"), exhausted: make(chan struct{}), timeout: timeout, slow: timeout * 8 / 10}
 	res := make(chan error, 1)
 	t0 := time.Now()
 	go func() { res <- mqtt.KeepAlive(parent, sc, interval, timeout) }()
@@ -128,6 +157,15 @@ func c13Unit(rng *rand.Rand) (sig, detail, shape string) {
 		case <-sc.exhausted:
 			cancel()
 		case err := <-res:
+			if slowScript {
+				sc.mu.Lock()
+				short := sc.short
+				sc.mu.Unlock()
+				if short == "" {
+					return "inconclusive", "a slow-but-timely ping expired without a shortened deadline (machine load)", ""
+				}
+				return "ping-deadline-shorter-than-timeout", fmt.Sprintf("script %v interval %v: %s; KeepAlive returned %v although every response arrived within the timeout", script, interval, short, err), ""
+			}
 			return "keepalive-stopped-while-healthy", fmt.Sprintf("script %v interval %v: KeepAlive returned %v although every ping was answered within the timeout", script, interval, err), ""
 		case <-time.After(scen.Watchdog):
 			return "inconclusive", "script not exhausted", ""
@@ -140,6 +178,12 @@ func c13Unit(rng *rand.Rand) (sig, detail, shape string) {
 		return "keepalive-does-not-return", fmt.Sprintf("script %v: KeepAlive did not return", script), ""
 	}
 	shape = strings.Join(script, "") + "/" + final
+	sc.mu.Lock()
+	short := sc.short
+	sc.mu.Unlock()
+	if short != "" {
+		return "ping-deadline-shorter-than-timeout", fmt.Sprintf("script %v interval %v: %s", script, interval, short), ""
+	}
 	bad := func(f string, a ...interface{}) (string, string, string) {
 		return "keepalive-classification:" + final, fmt.Sprintf("script %v interval %v timeout %v: ", script, interval, timeout) + fmt.Sprintf(f, a...), ""
 	}
@@ -355,11 +399,23 @@ func c13Run(c fw.Case, env *fw.Env) fw.Result {
 	rng := env.Rng(c)
 	r := fw.Result{Counters: map[string]int{}}
 	for i := 0; i < p.N; i++ {
-		sub := rand.New(rand.NewSource(rng.Int63()))
 		var sig, det, shape string
 		var trc []string
 		if p.Mode == "unit" {
-			sig, det, shape = c13Unit(sub)
+			useed := rng.Int63()
+			sig, det, shape = c13Unit(rand.New(rand.NewSource(useed)))
+			if sig == "ping-deadline-shorter-than-timeout" {
+				// a stall of the machine between creating the deadline and calling Ping could shorten what is left:
+				// the verdict stands only if the same script shows it three times out of three
+				for k := 0; k < 2; k++ {
+					if s2, _, _ := c13Unit(rand.New(rand.NewSource(useed))); s2 != sig {
+						r.Counters["short_deadline_not_confirmed"]++
+						sig, det = "", ""
+						shape = "unconfirmed/"
+						break
+					}
+				}
+			}
 		} else {
 			seed := rng.Int63()
 			sig, det, trc, shape = c13System(rand.New(rand.NewSource(seed)), p.Mode == "default")
